@@ -237,7 +237,13 @@ class ExceptionTrace(object):
 
     def render(self, io, simple=False):  # type: (IO, bool) -> None
         if simple:
-            io.write_line("<error>{}</error>".format(str(self._exception)))
+            message = str(self._exception)
+            try:
+                io.write_line("<error>{}</error>".format(message))
+            except ValueError:
+                # The message is not valid markup (it may quote user input)
+                io.write_line_raw(message)
+
             return
 
         if not PY36:
@@ -275,10 +281,16 @@ class ExceptionTrace(object):
             io, "<error>{}</error>".format(inspector.exception_name), True
         )
         io.write_line("")
-        exception_message = io.remove_format(inspector.exception_message).replace(
-            "\n", "\n  "
-        )
-        self._render_line(io, "<b>{}</b>".format(exception_message))
+        try:
+            exception_message = io.remove_format(
+                inspector.exception_message
+            ).replace("\n", "\n  ")
+            self._render_line(io, "<b>{}</b>".format(exception_message))
+        except ValueError:
+            # The message is not valid markup
+            io.write_line_raw(
+                "  " + inspector.exception_message.replace("\n", "\n    ")
+            )
 
         current_frame = inspector.frames[-1]
         self._render_snippet(io, current_frame)
